@@ -446,6 +446,37 @@ func Run(r *ev.Run) {
 		}
 	}
 
+	// ---- 3b''. ONE config whose contents reach the 16-bit limit through the NUMBER OF SUITES (4 bytes each), the key length filling
+	// the last bytes: up to 65535 bytes of contents the exact encoding is required, beyond it an error - a value, never a panic ----
+	{
+		const nameS = "size.example"
+		for _, n := range []int{16300, 16360, 16365, 16366, 16367, 16368, 16369, 16370, 16371, 16372, 16373, 16380, 16383, 16384, 16385, 20000, 32700, 32737, 32738, 32768, 40000, 70000} {
+			for _, kl := range []int{32, 33, 34, 35, 36} {
+				suites := make([]ech.CipherSuite, n)
+				for i := range suites {
+					suites[i] = allSuites[i%len(allSuites)]
+				}
+				contents := 11 + kl + 4*n + len(nameS)
+				spec := ech.ConfigSpec{Version: 0xfe0d, ID: 78, KEM: 0x20, PublicKey: tlsref.DetBytes("k", kl), CipherSuites: suites, PublicName: []byte(nameS)}
+				oc := "ok-config"
+				guard(r, fmt.Sprintf("spec-bytes:suites%d:key%d", n, kl), []int{n, kl}, func() {
+					got, err := spec.Bytes()
+					switch {
+					case contents <= 65535 && (err != nil || !bytes.Equal(got, tlsref.BuildConfig(78, spec.PublicKey, refSuites(suites), nameS))):
+						oc = "exact-size-config-refused"
+						r.Violation("spec-bytes:exact-size", fmt.Sprintf("ConfigSpec.Bytes with %d suites and a %d-byte key (contents %d bytes, legal: the limit is 65535): err=%v, %d bytes returned", n, kl, contents, err, len(got)), []int{n, kl})
+					case contents > 65535 && err == nil:
+						oc = "config-overflow-not-reported"
+						r.Violation("config-overflow-not-reported", fmt.Sprintf("ConfigSpec.Bytes with %d suites and a %d-byte key (contents %d bytes) returned %d bytes and no error", n, kl, contents, len(got)), []int{n, kl})
+					case contents > 65535:
+						oc = "rejected-length"
+					}
+				})
+				r.Eval(fmt.Sprint("exactconfig", n, kl), oc)
+			}
+		}
+	}
+
 	// ---- 3c. what ConfigList returned belongs to the caller: writing into it changes no later result (empty list included) ----
 	for _, cfgs := range [][]ech.Config{nil, {}, {mk(9, "a.example", sl[0])}, {mk(9, "a.example", sl[0]), mk(10, "b.example", sl[1])}} {
 		first, err := ech.ConfigList(cfgs)
